@@ -325,6 +325,10 @@ func runC09(l *core.Ledger) {
 	}
 
 	c09W2(l, r)
+	// a reader that sleeps through its back-off while the sender has restored the stream leaves
+	// every reply on that node unread for as long as the timer runs (up to the back-off cap)
+	l.Rule("C09-W11", "the reader never sleeps through a back-off while another goroutine has restored the stream (C10-N4 re-run)")
+	l.With(map[string]string{"C10-N4": "C09-W11"}, func() { c10N4(l, r) })
 	c09W4(l, r)
 	c09W6(l, r)
 	c09W7(l, r, roots)
